@@ -93,6 +93,23 @@ check("C18", "exploration",
       "Trusted: the reference definitions in vmc/props/c18.py; float tolerance 1e-9; ill-defined expressions (domain/overflow) are C05's.",
       "DESIGN.md §3 C18")
 
+check("C11", "fault_enumeration",
+      "exhaustive kill-point enumeration of the real backup/overwrite/commit/close/restore flow: a crash image at every executed source line (deduplicated by directory content), double faults in the restoring open, cross-checked in thorough against forked children really killed by os._exit",
+      "Four flows (clean / write-ahead-log-pending database x both branches of the override code) are run under sys.settrace; each of the ~3600 executed lines of core.py/dumpparser.py is a kill point whose on-disk image is opened by a new context and must pass PRAGMA integrity_check and contain exactly the content at backup time; for every first-phase image all kill points of the following restore are enumerated as well.",
+      "Trusted: a killed process loses nothing already handed to the OS (no power-loss model); kill points are Python lines, not individual syscalls inside one SQLite call.",
+      "DESIGN.md §3 C11")
+check("C20", "model_checking",
+      "stateless exploration of all thread schedules up to a preemption bound over the real worker code, with scheduling points at every SQLite and file-system operation on the shared files (cooperative baton scheduler, prefix replay, busy -> blocked)",
+      "Every schedule of 2 workers with <= 2 preemptions (thorough: 2 workers <= 3, 3 workers <= 2) for 4 initial conditions is executed on a fresh copy of the database directory; each worker's results must equal the single-worker results, no exception / deadlock / database-locked failure may occur and the pages table must be unchanged (plus at most the bootstrap page). A free-running multi-process pass is recorded as corroborating evidence only.",
+      "Trusted: SQLite gives separate connections of one process the same locking semantics as separate processes; timeout=0 + retry models the busy handler.",
+      "DESIGN.md §3 C20")
+
+check("C06", "model_checking",
+      "explicit-state reachability (BFS to closure) over the live Lua/Python object graph of the initialised sandbox with an invariant on every node; exhaustive module-name enumeration for the file loader; attack corpus executed for real",
+      "From the environment table and frame a page module receives, every object reachable by table fields (raw next), metatables, the string metatable, require() of every host-package / lua-directory name through the sandbox's own require, nullary frame methods and filter-passing Python attributes/items is visited (about 10^3 objects, 1.5*10^3 edges per graph, several invocation histories); no node may be a host capability (host _G, io, os.*, package, debug.*, load*, get/setfenv, lupa's python table) and Python objects must be plain data or plain functions. Every loader name of length <= 4 (thorough 5) over a 12-symbol path alphabet is tried with an audit hook on open(); 25 attack modules run for real against canaries.",
+      "Limit: results of calling reachable functions with arbitrary arguments are not enumerable; only the listed calls are edges. Forbidden set built host-side from the real runtime.",
+      "DESIGN.md §3 C06")
+
 NOT_APPLICABLE = {}
 for i in range(1, 21):
     pid = "C%02d" % i
